@@ -2,7 +2,7 @@
     Statements only.  [E] is the implementer the derive generates for an enum with container
     options [c], word variant [wordv] and variants [vs] (each with effective name, skip flag,
     style and fields of arbitrary types) - for ANY such enum, any user callables, any oracle. *)
-From DarlingModel Require Import Run.Recv Run.EnumProofs.
+From DarlingModel Require Import Run.Recv Run.EnumProofs Run.NameProofs.
 Local Open Scope string_scope.
 Local Open Scope list_scope.
 
@@ -143,7 +143,19 @@ Proof.
     intros w [<-|Hw]; [assumption|now apply Hp].
 Qed.
 
+(** How the single item names a variant: a raw identifier is the name it stands for ([r#type]
+    names [type], the only way to write that name as an item), and a global path ([::name]) is a
+    different name - it selects no variant declared without leading colons. *)
+Theorem C09_item_name_raw_and_global :
+  (forall i s, path_to_string (mkPath i false [(("r#" ++ s)%string, "")]) = s)
+  /\ (forall i s, String.prefix "r#" s = false -> path_to_string (mkPath i false [(s, "")]) = s)
+  /\ (forall (vs : list (vinfo * list (finfo * ty))) p,
+        p_leading p = true -> Forall (fun v => String.prefix "::" (vi_name (fst v)) = false) vs ->
+        select vs (path_to_string p) = None).
+Proof. exact (conj path_to_string_raw (conj path_to_string_plain global_path_selects_no_variant)). Qed.
+
 Print Assumptions C09_list_arity.
+Print Assumptions C09_item_name_raw_and_global.
 Print Assumptions C09_list_selects_by_name.
 Print Assumptions C09_string_selects_unit_or_absentable_newtype.
 Print Assumptions C09_skipped_never_produced_by_list.
